@@ -16,14 +16,14 @@ Qed.
 Lemma fam_ok n : Forall (rule_ok []) (fam n).
 Proof. unfold fam, rules_upto. apply Forall_map. apply Forall_forall. intros i _. apply fam_rule_ok. Qed.
 
-Theorem validator_not_polynomial : forall c k, exists rules, forall builtins ex,
-  exists errs s, validate_ast rules (length rules + 3) builtins ex = VOk errs s /\ c * (rules_size rules) ^ k < s.
+Theorem validator_not_polynomial : forall c k, exists rules, forall lrf tgf builtins ex,
+  exists errs s, validate_ast rules (length rules + 3) lrf tgf builtins ex = VOk errs s /\ c * (rules_size rules) ^ k < s.
 Proof.
-  intros c k. destruct (exp_beats_poly c k) as (n & Hn). exists (fam n). intros builtins ex.
+  intros c k. destruct (exp_beats_poly c k) as (n & Hn). exists (fam n). intros lrf tgf builtins ex.
   assert (L : length (fam n) = n + 2) by (unfold fam, rules_upto; rewrite map_length, seq_length; reflexivity).
-  pose proof (validate_ast_ok [] (fam n) (length (fam n) + 3) (fam_ok n) builtins ex) as OK.
-  pose proof (validate_ast_nf (fam n) (length (fam n) + 3) ltac:(rewrite map_length; lia) builtins ex) as NF.
-  destruct (validate_ast (fam n) (length (fam n) + 3) builtins ex) as [errs s| |] eqn:E; try contradiction.
+  pose proof (validate_ast_ok [] (fam n) (length (fam n) + 3) lrf tgf (fam_ok n) builtins ex) as OK.
+  pose proof (validate_ast_nf (fam n) (length (fam n) + 3) lrf tgf ltac:(rewrite map_length; lia) builtins ex) as NF.
+  destruct (validate_ast (fam n) (length (fam n) + 3) lrf tgf builtins ex) as [errs s| |] eqn:E; try contradiction.
   exists errs, s. split; [reflexivity|].
   assert (S2 : 2 ^ n <= s) by (eapply validator_steps_exponential; [|exact E]; lia).
   eapply Nat.le_lt_trans; [|eapply Nat.lt_le_trans; [exact Hn|exact S2]].
